@@ -68,3 +68,12 @@ package keyvalue
 //@ func Data.ServeHTTP
 //@   prop C11 C20
 //@   structural
+
+// ---- goroutine/parent races on captured variables (C11), structural contracts ----
+// Each function below starts goroutines; the only obligation generated for it is that no local variable
+// written by a goroutine it starts is accessed by the function afterwards (#gorace...). The bodies are not
+// executed symbolically.
+//@ func Data.StreamKV
+//@   prop C11
+//@   structural
+
